@@ -57,12 +57,16 @@ impl RecoveryMon {
     }
 
     /// driver hook: a fault on this link was repaired at `t`
-    pub fn repaired(&mut self, id: u64, t: u64, failures_now: u32) {
+    /// `binder_was_failing`: the outage included failing socket re-opens (the only lawful reason for a
+    /// back-off beyond the 5 s base: the property's case split). Only then is the rejoin bound extended by
+    /// the back-off in force; a path fault alone must rejoin within 30 s whatever the implementation's
+    /// failure counter says.
+    pub fn repaired(&mut self, id: u64, t: u64, failures_now: u32, binder_was_failing: bool) {
         self.faulty.remove(&id);
         let l = self.links.entry(id).or_default();
         l.clean_since = Some(t);
         l.d5_reported = false;
-        l.backoff_at_repair = backoff_ms(failures_now);
+        l.backoff_at_repair = if binder_was_failing { backoff_ms(failures_now) } else { 0 };
     }
 
     pub fn fault(&mut self, id: u64, what: &'static str) {
@@ -308,6 +312,7 @@ pub fn run_schedule(opts: StreamOpts, rng: &mut Rng, rep: &mut Report) -> Option
     }
     let mut active: Vec<(u64, usize, Fault)> = Vec::new(); // (until, link, fault)
     let mut binder_until: u64 = 0;
+    let mut last_binder_failure_end: u64 = 0;
     let mut all_down_until: u64 = 0;
     let mut hk_period = 1000 + rng.below(100);
     let mut acc = 0.0f64;
@@ -386,7 +391,7 @@ pub fn run_schedule(opts: StreamOpts, rng: &mut Rng, rep: &mut Report) -> Option
                 }
                 if binder_until == 0 {
                     let fc = d.sim.conns.get(li).map(|c| c.reconnection.reconnect_failure_count).unwrap_or(0);
-                    rm.repaired(id, now, fc);
+                    rm.repaired(id, now, fc, now.saturating_sub(last_binder_failure_end) < 130_000 && last_binder_failure_end != 0);
                 }
                 rep.count(match f {
                     Fault::BlackHole => "repair.black_hole",
@@ -405,9 +410,10 @@ pub fn run_schedule(opts: StreamOpts, rng: &mut Rng, rep: &mut Report) -> Option
             rep.count("repair.binder");
             for (li, c) in d.sim.conns.iter().enumerate() {
                 if !active.iter().any(|a| a.1 == li) {
-                    rm.repaired(c.conn_id, now, c.reconnection.reconnect_failure_count);
+                    rm.repaired(c.conn_id, now, c.reconnection.reconnect_failure_count, true);
                 }
             }
+            last_binder_failure_end = now;
         }
         let mut g = 0;
         while g < group_events.len() {
@@ -443,7 +449,7 @@ pub fn run_schedule(opts: StreamOpts, rng: &mut Rng, rep: &mut Report) -> Option
             for li in 0..d.sim.conns.len() {
                 d.rxm.set_path(link_ip(li), Path::Healthy);
                 let c = &d.sim.conns[li];
-                rm.repaired(c.conn_id, now, c.reconnection.reconnect_failure_count);
+                rm.repaired(c.conn_id, now, c.reconnection.reconnect_failure_count, now.saturating_sub(last_binder_failure_end) < 130_000 && last_binder_failure_end != 0);
             }
             rm.group_disturbed_until = now;
             rep.count("repair.all_links_back");
